@@ -134,7 +134,14 @@ def run(chk):
         ret = dv.returns[-1].value
         mass = [e for e in dv.events if e.kind == "assign" and e.name == "uc_mass"]
         okm = False
-        chk.need(mass, "Crystal.density: uc_mass not found")
+        if not mass:
+            # whatever the locals are called: the mass is what the returned ratio has over volume * 0.6022
+            class _M:
+                pass
+            m0 = _M()
+            m0.value = ret * P.atom(("call", P.atom(("attr", P.atom(("attr", P.name("self"), "unit_cell")), "volume")), ())) * P.const(Fraction("0.6022"))
+            m0.node = dv.returns[-1].node
+            mass = [m0]
         ma = mass[0].value.as_atom()
         comp0 = ma[2][0].as_atom() if ma and call_name(ma) in ("sum", "numpy.sum") and len(ma[2]) == 1 else None
         mk = mass[0].value.key()
